@@ -16,6 +16,7 @@ import (
 	"sync"
 
 	"github.com/jf-tech/omniparser/customfuncs"
+	"github.com/jf-tech/omniparser/errs"
 	v21 "github.com/jf-tech/omniparser/extensions/omniv21/customfuncs"
 	"github.com/jf-tech/omniparser/idr"
 	"github.com/jf-tech/omniparser/transformctx"
@@ -1152,9 +1153,10 @@ func schemaSafe(v JV) bool {
 }
 
 type tfField struct {
-	Name string
-	Call *callT
-	XP   string // xpath of the custom_func ("." or "..")
+	Name   string
+	Call   *callT
+	XP     string // xpath of the custom_func ("." or "..")
+	Strict bool   // no ignore_error: a failing call fails the record
 }
 
 func buildSchema(fields []tfField) string {
@@ -1171,8 +1173,12 @@ func buildSchema(fields []tfField) string {
 			nb, _ := json.Marshal(a.Name)
 			args = append(args, `{"const": `+string(nb)+`}`, schemaArg(a.Val))
 		}
-		fs = append(fs, fmt.Sprintf(`%q: {"xpath": %q, "custom_func": {"name": %q, "ignore_error": true, "args": [%s]}, "no_trim": true, "keep_empty_or_null": true}`,
-			f.Name, f.XP, fn, strings.Join(args, ",")))
+		ign := `"ignore_error": true, `
+		if f.Strict {
+			ign = ""
+		}
+		fs = append(fs, fmt.Sprintf(`%q: {"xpath": %q, "custom_func": {"name": %q, %s"args": [%s]}, "no_trim": true, "keep_empty_or_null": true}`,
+			f.Name, f.XP, fn, ign, strings.Join(args, ",")))
 		fs = append(fs, fmt.Sprintf(`%q: {"xpath": %q, "custom_func": {"name": "verif_probe"}, "no_trim": true}`, f.Name+"_probe", f.XP))
 	}
 	return `{"parser_settings": {"version": "omni.2.1", "file_format_type": "json"},
@@ -1205,6 +1211,10 @@ func runTransform(schema, input string, fields []tfField) (recs [][]*callT, fata
 		b, err := t.Read()
 		if err == io.EOF {
 			return recs, ""
+		}
+		if err != nil && errs.IsErrTransformFailed(err) {
+			recs = append(recs, nil) // the record failed (a strict call failed)
+			continue
 		}
 		if err != nil {
 			return recs, "Read: " + err.Error()
@@ -1343,6 +1353,10 @@ func runCorpus(dir string, tbl *rtTable, sum *vh.Summary) {
 			}
 			var details []string
 			for i, rec := range recs {
+				if rec == nil {
+					details = append(details, fmt.Sprintf("record %d: failed", i+1))
+					continue
+				}
 				if j := judgeTransform(tbl, rec[0]); j != "" {
 					details = append(details, fmt.Sprintf("record %d: %s", i+1, j))
 				}
@@ -1441,6 +1455,10 @@ func main() {
 			for i, k := 0, r.Between(2, 9); i < k; i++ {
 				calls = append(calls, genCall(r, &seen, opts))
 			}
+			if r.Chance(0.35) {
+				calls = addWhitespaceTwins(r, calls, &seen, opts)
+				sum.Hist("direct:whitespace-twins")
+			}
 			vh.Current(o, caseDesc{Kind: kind, Cache: cfg.Name, Calls: calls})
 			for _, c := range calls {
 				runDirect(c, nodes)
@@ -1503,6 +1521,15 @@ func main() {
 				}
 				fields = append(fields, tfField{Name: fmt.Sprintf("f%d", i), Call: c, XP: "."})
 			}
+			if r.Chance(0.45) {
+				// lenient / strict twins on one node: the same call once with ignore_error (evaluated
+				// first: members are evaluated in name order) and once without - the strict one
+				// must run for itself and fail the record when its script fails
+				f := fields[r.Pick(len(fields))]
+				twin := *f.Call
+				fields = append(fields, tfField{Name: f.Name + "s", Call: &twin, XP: f.XP, Strict: true})
+				sum.Hist("transform:lenient-strict-twins")
+			}
 			nrec := r.Between(1, 4)
 			var recsIn []string
 			for i := 0; i < nrec; i++ {
@@ -1522,10 +1549,31 @@ func main() {
 				continue
 			}
 			var calls []*callT
-			for _, rec := range recs {
+			bad := ""
+			for ri, rec := range recs {
+				strictFails := ""
+				for _, f := range fields {
+					if f.Strict {
+						if w := intended(tbl, f.Call, "{}"); w.Err {
+							strictFails = f.Name + ": " + w.Reason
+						}
+					}
+				}
+				switch {
+				case rec == nil && strictFails == "":
+					bad = fmt.Sprintf("record %d failed although no strict javascript call of it fails", ri+1)
+				case rec != nil && strictFails != "":
+					bad = fmt.Sprintf("record %d was delivered although its strict (no ignore_error) javascript call fails (%s): the failure was swallowed", ri+1, strictFails)
+				}
+				if rec == nil {
+					sum.Hist("transform:record-failed-by-strict-call")
+				}
 				calls = append(calls, rec...)
 			}
 			desc.Calls = calls
+			if bad != "" {
+				sum.Fail(bad, desc, nil)
+			}
 			finish(r, sum, cw, it, tbl, cfg, calls, desc, judgeTransform)
 		}
 	}
@@ -2050,3 +2098,66 @@ func runConcurrentTransforms(o *vh.Opts, r *vh.Rng, sum *vh.Summary, cw *vh.Case
 	}
 	cw.Add(coqCase(r, it, tbl, cfg, sample), desc)
 }
+
+// addWhitespaceTwins inserts two calls whose scripts differ ONLY in white space at a place where
+// white space is significant: inside a string literal, or a line break that ends a // comment.
+// Everything else (args, node) is equal; each call must still yield ITS script's value.
+func addWhitespaceTwins(r *vh.Rng, calls []*callT, seen *[]string, o genOpts) []*callT {
+	var base *callT
+	for tries := 0; tries < 20; tries++ {
+		c := genCall(r, seen, o)
+		if !c.Invalid && !c.Odd {
+			base = c
+			break
+		}
+	}
+	if base == nil {
+		return calls
+	}
+	a, b := *base, *base
+	if r.Chance(0.5) {
+		sp := r.PickStr("a b", "x y z", "tab\there", " lead", "q  r")
+		wide := strings.ReplaceAll(strings.ReplaceAll(sp, " ", "  "), "\t", " \t ")
+		if r.Chance(0.3) {
+			wide = strings.ReplaceAll(sp, " ", "\n")
+		}
+		a.Script = &SE{K: "arr", Es: []*SE{lit(str(sp)), base.Script}}
+		b.Script = &SE{K: "arr", Es: []*SE{lit(str(wide)), base.Script}}
+		a.JS, b.JS = a.Script.js(), b.Script.js()
+		// a JSON string literal keeps blanks as they are; \t and \n are escaped there, so put them raw
+		b.JS = strings.Replace(b.JS, jsonStr(wide), rawStr(wide), 1)
+		a.JS = strings.Replace(a.JS, jsonStr(sp), rawStr(sp), 1)
+		if strings.Contains(wide, "\n") {
+			// a raw line break cannot stand in a JavaScript string literal: use a template literal
+			b.JS = strings.Replace(b.JS, rawStr(wide), "`"+wide+"`", 1)
+			a.JS = strings.Replace(a.JS, rawStr(sp), "`"+sp+"`", 1)
+		}
+	} else {
+		// "0; // pad<LF>E" evaluates E; "0; // pad E" is 0 followed by a comment
+		zero := num(0)
+		a.JS = "0; // pad\n" + base.Script.js()
+		b.Script = &SE{K: "lit", V: &zero}
+		b.JS = "0; // pad " + base.Script.js()
+		if strings.Contains(base.Script.js(), "\n") {
+			return calls
+		}
+	}
+	first, second := &a, &b
+	if r.Chance(0.5) {
+		first, second = second, first
+	}
+	p := r.Pick(len(calls) + 1)
+	out := append(append([]*callT{}, calls[:p]...), first)
+	q := p + r.Pick(len(calls)-p+1)
+	out = append(out, calls[p:q]...)
+	out = append(out, second)
+	out = append(out, calls[q:]...)
+	if r.Chance(0.4) {
+		third := *first
+		out = append(out, &third)
+	}
+	return out
+}
+
+func jsonStr(s string) string { b, _ := json.Marshal(s); return string(b) }
+func rawStr(s string) string  { return "\"" + s + "\"" }
